@@ -124,11 +124,15 @@ theorem tocimxmlValue_valid (C : Codec) (v : Val) (x : Xml) (hs : valShape v = t
       obtain ⟨_, _, _, he, _⟩ := encPath_name C p
       exact fin _ (struct_encPath C p hs) hc (by rw [he]; rfl)
     | einst i =>
-      simp only [tocimxmlValue] at h
+      simp only [tocimxmlValue, instXml] at h
+      split at h
+      · cases h
       obtain ⟨rfl, hc⟩ := checked_ok h
       exact fin _ (struct_encInst C i hs) hc (encObj_isElem C (.inst i))
     | ecls c =>
-      simp only [tocimxmlValue] at h
+      simp only [tocimxmlValue, clsXml] at h
+      split at h
+      · cases h
       obtain ⟨rfl, hc⟩ := checked_ok h
       exact fin _ (struct_encCls C c hs) hc (encObj_isElem C (.cls c))
     | str s => simp only [tocimxmlValue] at h; exact hv _ x h
